@@ -1,6 +1,8 @@
 import LanceModel.C14.Frame
 import LanceModel.C14.Wf
 import LanceModel.C14.Values
+import LanceModel.C14.AlterValues
+import LanceModel.C14.Readable
 /-
 C14 — Schema evolution preserves untouched data.
 
@@ -19,10 +21,12 @@ AllNulls / Reader, alter, drop, interleaved with append, delete, compaction):
   evolve_frame            add / alter / drop keep row count and order and every column they do not name
   C14_frame_full / _partial / _counterexample   the same including "the table can still be read": FALSE of the code —
                           dropping the last column that has a data file leaves fragments without data files
-  drop_readable_iff       exactly when drop_columns leaves the table readable;  add_readable
+  drop_readable_iff       exactly when drop_columns leaves the table readable;  add_readable;
+  readable_step           every operation other than drop_columns keeps the table readable
   add_values_sql / _nulls / _reader   the new columns hold exactly the requested values and get the next field ids
   add_ids_fresh           ids handed out by add are stored by no data file and used by no field of the version before
   drop_readd_fresh        … in particular for a name dropped earlier in the history: NULL / the new values, never old data
+  alter_values            a renamed / re-typed / nullability-changed column keeps its cells (a cast field gets a fresh id)
   scan_shape, compact_preserves     every column has one cell per live row; compaction keeps every column's cells
 -/
 namespace LanceModel.C14
@@ -114,6 +118,17 @@ theorem evolve_frame (t t' : Tbl) (op : Op) (hw : WF t) (hev : op.isEvolve = tru
 
 example : ∃ t', step exT (.alter [⟨"a", some "b", none, some .i32⟩]) = .ok t' ∧ Op.isEvolve (.alter [⟨"a", some "b", none, some .i32⟩]) = true :=
   ⟨_, rfl, rfl⟩
+
+/-- `alter_values` (proved in AlterValues.lean): the altered column itself keeps its cells, under its new name -/
+theorem altered_column_keeps_cells (t t' : Tbl) (alts : List Alt) (hw : WF t) (h : step t (.alter alts) = .ok t') :
+    ∀ a ∈ alts, ∀ src, findFld t.schema a.col = some src →
+      ∃ fl' ∈ t'.schema, fl'.name = a.newName ∧ scanCol t' fl'.id = scanCol t src.id ∧
+        (a.cast = none → fl'.id = src.id) ∧ (a.cast ≠ none → t.maxFieldId < fl'.id) :=
+  alter_values t t' alts hw h
+
+example : ∃ t', step exT (.alter [⟨"a", some "b", none, some .i32⟩]) = .ok t' ∧
+    t'.schema = [⟨"b", 1, .i32, true⟩] ∧ scanCol t' 1 = [some 7, some 1] ∧ scanCol exT 0 = [some 7, some 1] :=
+  ⟨_, rfl, by decide, by decide, by decide⟩
 
 /-- the property's frame clause at full strength: after a successful evolution op the table can be read and the untouched
     columns are as before -/
@@ -236,6 +251,45 @@ theorem add_readable (t t' : Tbl) (op : Op) (hr : t.readable = true) (h : step t
           cases h
           simp only [Tbl.readable, List.all_eq_true, Bool.not_eq_true', List.isEmpty_eq_false_iff]
           exact feed_files _ _ _ _ _ _ _ hfeed
+
+/-- drop_columns is the ONLY operation that can leave a fragment without data files: append, delete, compaction, the three
+    add transforms and alter_columns (rename / nullability / cast) keep a well-formed readable table readable -/
+theorem readable_step (t t' : Tbl) (op : Op) (hw : WF t) (hr : t.readable = true) (h : step t op = .ok t')
+    (hnd : ∀ cs, op ≠ .drop cs) : t'.readable = true := by
+  cases op with
+  | append rows =>
+    simp only [step, append] at h
+    split at h
+    · cases h
+    · cases h
+      rw [readable_iff] at hr ⊢
+      intro f hf
+      simp only [List.mem_append, List.mem_singleton] at hf
+      rcases hf with hf | rfl
+      · exact hr f hf
+      · simp
+  | delete c cmp k =>
+    simp only [step, delete] at h
+    split at h
+    · cases h
+    · cases h
+      rw [readable_iff] at hr ⊢
+      intro f hf
+      simp only [List.mem_filter, List.mem_map] at hf
+      obtain ⟨⟨g, hg, rfl⟩, _⟩ := hf
+      exact hr g hg
+  | compact =>
+    simp only [step] at h
+    cases h
+    simp only [compact]
+    split
+    · simp [Tbl.readable]
+    · exact hr
+  | addSql bs es => exact add_readable t t' _ hr h (Or.inl ⟨bs, es, rfl⟩)
+  | addNulls cs => exact add_readable t t' _ hr h (Or.inr (Or.inl ⟨cs, rfl⟩))
+  | addReader bs cs rows tr => exact add_readable t t' _ hr h (Or.inr (Or.inr ⟨bs, cs, rows, tr, rfl⟩))
+  | alter alts => exact alter_readable t t' alts hw hr h
+  | drop cs => exact absurd rfl (hnd cs)
 
 /-! ## added values -/
 
